@@ -18,6 +18,7 @@ func init() {
 		"DECIDED: D1 sort-flag typestate — every read of Values at a rank-dependent index (any index that is not the induction variable of a range over Values) in a method of *Dataset is dominated by a call of the sort routine on the same receiver; on every path of every method, the last write to Values is followed by lowering the sorted flag; the sort routine skips sorting only when the flag is set and raises it only after sort.Float64s(Values). "+
 			"D2 rank table — LowerQuantile indexes at int(Floor(q·(Count−1))), UpperQuantile at int(Ceil(same term)), Quantile is LowerQuantile; q<0, q>1 and Count==0 return NaN before any indexing. "+
 			"D3 bookkeeping — each one-element append is paired with Count += 1 on the same path and nothing else writes Count; Min/Max read index 0 / len−1 after sorting; Sum feeds every element with weight 1 into a fresh compensated accumulator and returns its sum; Merge re-adds every element of the argument through Add and does not write the argument. "+
+			"SHARED (re-evaluated here as C20-D3): the Add table of the statistics object Sum feeds, and the compensated step it delegates to — tmp = v − comp; t = sum + tmp; comp = (t − sum) − tmp; sum = t on a single unconditional path (an absorbed addend is parked in the compensation, never dropped). "+
 			"NOT DECIDED: correctness of sort.Float64s, accuracy of the sum, direct writes to the exported fields by users, q = NaN (outside the stated contract).",
 		"one obligation per rank-dependent read, per writer path, per table cell",
 		false, runC20)
@@ -426,6 +427,13 @@ func runC20(c *Ctx) {
 			}
 		}
 		c.R.check(feeds && fresh && returns, r3, shortFn(f)+"/accumulates-all", shortFn(f), c.fpos(f), "every element of Values is added with weight 1 to a fresh compensated accumulator whose sum is returned", fmt.Sprintf("feeds=%v fresh=%v returns=%v", feeds, fresh, returns))
+	}
+	// Sum() feeds the compensated statistics object (ddsketch/stat/summary.go is an anchor of this property): its Add,
+	// and the compensated step it delegates to, are the sum "accurate to rounding"
+	if a, err := c.anchors(); err == nil {
+		c10StatObject(c, a, r3, "Add")
+	} else {
+		c.R.undecided(r3, "anchors", "", "", "sketch anchors resolve", err.Error())
 	}
 	if f := c.P.DeclaredMethod(ds, "Merge"); c.mustFunc(r3, f, "(*Dataset).Merge") {
 		tc := newTermCtx(c.P)
